@@ -339,7 +339,7 @@ func (w *World) tokenCall(p int, r *http.Request, grantAllRequested bool) (Obs, 
 	o := newObs()
 	ctx := w.ctx(p)
 	rec := httptest.NewRecorder()
-	ar, err := w.Provider.NewAccessRequest(ctx, r, NewSess(protoSubject(r)))
+	ar, err := w.Provider.NewAccessRequest(ctx, r, w.sess(protoSubject(r)))
 	if err != nil {
 		o.Res = errName(err)
 		w.Provider.WriteAccessError(ctx, rec, ar, err)
@@ -626,7 +626,11 @@ func (w *World) Probe() (ats []TokState, rts []TokState) {
 		if tu != fosite.AccessToken {
 			st.Client = "WRONG-USE:" + string(tu)
 		}
-		st.Exp = int(ar.GetSession().GetExpiresAt(fosite.AccessToken).Sub(w.T0) / Tick)
+		exp := ar.GetSession().GetExpiresAt(fosite.AccessToken)
+		if exp.IsZero() { // a session that does not remember it: the expiry is requested_at + the configured lifetime
+			exp = ar.GetRequestedAt().Add(time.Duration(w.Cfg.LAT) * Tick)
+		}
+		st.Exp = int(exp.Sub(w.T0) / Tick)
 		ats = append(ats, st)
 	}
 	{ // with refresh-token introspection disabled every refresh token must come back inactive
@@ -862,7 +866,7 @@ func (w *World) doPush(p int, op Op) Obs {
 		o.Status = rec.Code
 		return o
 	}
-	resp, err := w.Provider.NewPushedAuthorizeResponse(ctx, ar, NewSess(Subject))
+	resp, err := w.Provider.NewPushedAuthorizeResponse(ctx, ar, w.sess(Subject))
 	if err != nil {
 		o.Res = errName(err)
 		w.Provider.WritePushedAuthorizeError(ctx, rec, ar, err)
@@ -935,7 +939,7 @@ func (w *World) doUsePar(p int, op Op) Obs {
 	for _, a := range ar.GetRequestedAudience() {
 		ar.GrantAudience(a)
 	}
-	resp, err := w.Provider.NewAuthorizeResponse(ctx, ar, NewSess(Subject))
+	resp, err := w.Provider.NewAuthorizeResponse(ctx, ar, w.sess(Subject))
 	if err != nil {
 		o.Res = errName(err)
 		w.Provider.WriteAuthorizeError(ctx, rec, ar, err)
